@@ -478,6 +478,8 @@ def dupcmd_family(seed, n, maxlen=2, budget=2500):
         b = level([sw("cb", "-y")], postail(pos("cp", "opt")))
         c1, c2 = cmd("run", a), cmd("run", b)
         c1["help"], c2["help"] = f"HELP-cmd-run-first{i}", f"HELP-cmd-run-second{i}"
+        if i % 2 == 0:
+            c2["help"] = c1["help"]         # ... or the same one-line summary: listed once (in every build)
         cmds = [c1, c2] + ([cmd("other", level([], NOTAIL))] if i % 2 else [])
         d = mkdef(f"dupcmd{seed}_{i}", level([sw("t0", "-v")] if i % 3 else [], cmdtail(cmds, optional=bool(i % 2))), maxlen=maxlen,
                   extras=("help",), spells=("sep",), words=("1",))
